@@ -119,7 +119,8 @@ func CSVConsumer(opts ...CSVOpt) Consumer {
 
 			switch {
 			case t.Kind() == reflect.Slice && t.Elem().Kind() == reflect.Slice && t.Elem().Elem().Kind() == reflect.String:
-				csvWriter := &csvRecordsWriter{}
+				// with ReuseRecord the reader hands out the same slice again and again: keep copies
+				csvWriter := &csvRecordsWriter{cloneRecords: o.csvReader.ReuseRecord}
 				// writer options are ignored
 				if err := pipeCSV(csvWriter, csvReader, o); err != nil {
 					return err
